@@ -33,17 +33,17 @@ T = {
          'For every accepted generated clause set / statement pair the solver finds no ambiguity witness up to K bytes.',
          'Programs enumerated; witness length <= K. Converse (unambiguous but rejected) not checked.', '§4 C09'),
  'C10': ('model_checking', 'LLVM-IR symbolic execution of feed/end call sequences from arbitrary invariant pre-state vs abstract machine consumed count',
-         'OK => whole chunk consumed; FAIL absorbing; DONE/FINISH iff abstract machine finishes; indirect pointer positions per code; solver-decided for all bytes/data within bounds.',
-         'Programs x configs enumerated; <= 3 calls x <= 3 bytes.', '§4 C10'),
+         'OK => whole chunk consumed; FAIL absorbing (after feed and after end(): one more feed of any byte / one more end() return FAIL); DONE/FINISH iff abstract machine finishes; indirect pointer positions per code; solver-decided for all bytes/data within bounds.',
+         'Programs x configs enumerated; <= 3 calls x <= 3 bytes (quick: 2 bytes; the two programs with heavy multi-byte arithmetic always 2 bytes from a seeded subset of states).', '§4 C10'),
  'C12': ('translation_validation', 'relational LLVM-IR symbolic execution of two builds differing only in representation options, inductive alpha-related step',
          'From alpha-related arbitrary pre-states one symbolic byte / end gives equal codes, alpha-related post-states and equal hook sequences.',
-         'Programs x option pairs enumerated; states of the two builds are paired by a structural correspondence (state numbering is not stable across compilations) which the solver then verifies step by step; inputs on which the program reads unspecified buffer content or has undefined arithmetic are excluded.', '§4 C12'),
+         'Programs x option pairs enumerated; states of the two builds are paired by a structural correspondence (state numbering is not stable across compilations) which the solver then verifies step by step; inputs on which the program reads unspecified buffer content or has undefined arithmetic are excluded. A memory fault in only one of the two builds is reported when the engine finds an input through the public API that reaches the pre-state (both builds are then replayed from start()); faults in both builds are left to C03.', '§4 C12'),
  'C13': ('translation_validation', 'two real compilations (macro program vs own textual expansion) compared by z3 one-step simulation / BMC on the compiled DFAs',
          'Verdict equality and, when accepted, solver-decided trace equality for all inputs (certificate) or up to K bytes (BMC).',
          'Program pairs enumerated (generator + corpus).', '§4 C13'),
  'C14': ('other', 'LLVM-IR symbolic execution of the emitted expression vs own C-semantics evaluator in z3 bit-vectors over full-width symbolic variables',
          'For every enumerated expression tree and all variable values with C-defined behaviour, stored value / branch taken equals the C value of the source expression.',
-         'Expression trees enumerated (all operator pairs + generated); literals < 2^31.', '§4 C14'),
+         'Expression trees enumerated (all operator pairs + generated, literal string indexes at and beyond the capacity); literals < 2^31. A path on which the emitted expression code leaves the object it indexes is a difference.', '§4 C14'),
  'C15': ('other', 'CrossHair symbolic execution of the literal decoders/encoders of nmfu.py + z3 queries on emitted literal comparisons',
          'decode(spelling(bytes)) == bytes and emitted C literal denotes exactly those bytes, for every byte value 0..255 at every position of literals up to 4 bytes.',
          'CrossHair kernels: literal <= 4 bytes within the per-harness bounds listed in evidence; digit arithmetic of int() trusted. L2/L3 clause: every byte value (quick: 44 values + 8 pairs) in each context (match, casei, binary string, binary regex, assignment, default, char-constant append), input byte symbolic.', '§4 C15'),
@@ -55,7 +55,7 @@ T = {
          'Programs with EOF support enumerated (+ corpus/generated programs recompiled with -feof-support, also at -O3). Two clauses: emitted <p>_end vs the DFA End move (L3), and the reference interpreter end-of-input step vs the DFA End move for all inputs up to K bytes (L2). A yield returned from end() is outside the claim.', '§4 C17'),
  'C18': ('other', 'CrossHair symbolic execution of token/attribute decoders and message rendering of nmfu.py',
          'For all token texts (<= 4 body chars) and numeric attributes the kernels return or raise a diagnosed error, never another exception.',
-         'Totality over program structure is NOT decided by the solver (watchdog by-product only).', '§4 C18'),
+         'Totality over program structure is NOT decided by the solver. The check also replays, concretely through the command line, the programs of corpus/c18 (structural crashes that were repaired): these replays are regression guards for the fixed entries, not solver obligations.', '§4 C18'),
  'C19': ('other', 'if-conversion of the flag-resolution code of load_commandline_flags to one z3 formula per -O level (flag space fully symbolic) + CrossHair on argv tokenisation',
          'For all 3^k absent/on/off assignments of all flags and all orders: implications hold, exclusives never both on, conflicts error, order-independent, levels cumulative, explicit wins.',
          'Fixpoint unrolled #flags+1 with unwinding assertion; option token <= 5 chars for the argv part.', '§4 C19'),
